@@ -156,6 +156,16 @@ func execC08(seg []Ev) []Ev {
 		if hz, ok := in["hostzone"]; ok {
 			e["hostzone"] = hz
 		}
+		// the list handed over is a prefix of a longer list of the caller's: what lies behind it stays untouched as well
+		full := make([]*variants.Variant, len(args), len(args)+8)
+		copy(full, args)
+		behind := full[len(args) : len(args)+8]
+		sentinels := make([]*variants.Variant, 8)
+		for i := range behind {
+			sentinels[i] = variants.VariantFromInteger(900 + i)
+			behind[i] = sentinels[i]
+		}
+		args = full
 		given := append([]*variants.Variant{}, args...)
 		t0 := time.Now().Unix()
 		oc, r, det := opOutcome(func() (*variants.Variant, error) { return fn.Calculate(args, m) })
@@ -164,6 +174,11 @@ func execC08(seg []Ev) []Ev {
 		e["argsame"] = len(given) == len(args)
 		for i := range given {
 			if i < len(args) && given[i] != args[i] {
+				e["argsame"] = false
+			}
+		}
+		for i := range behind {
+			if behind[i] != sentinels[i] {
 				e["argsame"] = false
 			}
 		}
@@ -341,7 +356,9 @@ func genC08(g *Gen) {
 	nums := []string{"i:0", "i:1", "i:2", "i:3", "i:-8", "i:7", "l:5", "l:-2", "l:0", "f:1.5", "f:-2.25", "f:0", "d:2.5", "d:-0.5", "d:4", "d:0", "d:1", "d:-3.5", "d:0.5", "d:9", "d:16", "i:25", "l:100"}
 	targeted := map[string][][]string{
 		"timespan": {{"i:5"}, {"l:1500"}, {"i:1", "i:2", "i:3"}, {"i:1", "i:2", "i:3", "i:4"}, {"i:1", "i:2", "i:3", "i:4", "i:5"}, {"i:0", "i:0", "i:0", "i:0", "i:7"}, {"l:2", "i:0", "i:30"}, {"i:-1", "i:0", "i:0"}},
-		"date":     {{"l:86400"}, {"i:0"}, {"i:2020"}, {"i:2020", "i:2"}, {"i:2020", "i:2", "i:28"}, {"i:1999", "i:12", "i:5", "i:23"}, {"i:2024", "i:7", "i:4", "i:9", "i:30"}, {"i:2001", "i:1", "i:1", "i:0", "i:0", "i:59"}, {"i:2020", "i:2", "i:3", "i:4", "i:5", "i:6", "i:7"}},
+		"date":     {{"l:86400"}, {"i:0"}, {"i:2020"}, {"i:2020", "i:2"}, {"i:2020", "i:2", "i:28"}, {"i:1999", "i:12", "i:5", "i:23"}, {"i:2024", "i:7", "i:4", "i:9", "i:30"}, {"i:2001", "i:1", "i:1", "i:0", "i:0", "i:59"}, {"i:2020", "i:2", "i:3", "i:4", "i:5", "i:6", "i:7"},
+			{"i:2020", "i:1", "i:1", "a"}, {"i:2020", "i:1", "i:1", "i:1", "o"}, {"i:2020", "i:1", "i:1", "i:1", "i:1", "a"}, {"i:2020", "i:1", "i:1", "i:1", "i:1", "i:1", "o"}, {"i:2020", "i:1", "i:1", "l:5"},
+			{"a", "i:1", "i:1"}, {"i:2020", "o"}, {"i:2020", "i:1", "a"}},
 		"dayofweek": {{"t:0"}, {"t:86400"}, {"t:1700000000"}, {"t:951782400"}, {"t:1709164800"}, {"t:-86400"}, {"t:4102444800"}, {"l:86400"}, {"s:x"},
 			{"tz:1700000000:10800"}, {"tz:1700000000:-28800"}, {"tz:1700006400:-3600"}, {"tz:1700006400:3600"}, {"tz:951782400:-60"}, {"tz:951782399:60"}, {"tz:1709164800:50400"}, {"tz:1709164800:-43200"},
 			{"tz:86399:1"}, {"tz:86400:-1"}, {"tz:4102444800:19800"}, {"tl:1700000000"}, {"tl:1700071200"}, {"tl:951762600"}, {"tl:86400"}},
